@@ -21,6 +21,7 @@ mod nop;
 mod psplit;
 mod rng;
 mod settings;
+mod rngs;
 mod sorts;
 mod strains;
 mod sv;
@@ -47,6 +48,7 @@ fn main() {
         "nop" => nop::main(arg(&args, 2, 0), arg(&args, 3, 0), arg(&args, 4, 100), args.get(5).map_or(false, |s| s == "real")),
         "banana" => nop::banana_main(arg(&args, 2, 0), arg(&args, 3, 100)),
         "sorts" => sorts::main(arg(&args, 2, 0), arg(&args, 3, 100)),
+        "rngs" => rngs::main(arg(&args, 2, 0), arg(&args, 3, 100)),
         "psplit" => psplit::main(arg(&args, 2, 0), arg(&args, 3, 100)),
         "fin" => fin::main(arg(&args, 2, 0), arg(&args, 3, 100), arg(&args, 4, 30)),
         "gperf" => gperf::main(arg(&args, 2, 0), arg(&args, 3, 100), arg(&args, 4, 40)),
